@@ -74,10 +74,10 @@ ModelDirective(el) ==
          [] el.tag.name = "textarea" -> vd("vModelText")
          [] el.tag.name = "input" ->
               LET ty == TypeAttr(el.attrs) IN
-              CASE ty.k = "absent" -> vd("vModelText")
-                [] ty.k = "str" -> IF ty.syms = <<"w_checkbox">> THEN vd("vModelCheckbox")
-                                   ELSE IF ty.syms = <<"w_radio">> THEN vd("vModelRadio") ELSE vd("vModelText")
-                [] OTHER -> vd("vModelDynamic")
+              (CASE ty.k = "absent" -> vd("vModelText")
+                 [] ty.k = "str" -> IF ty.syms = <<"w_checkbox">> THEN vd("vModelCheckbox")
+                                    ELSE IF ty.syms = <<"w_radio">> THEN vd("vModelRadio") ELSE vd("vModelText")
+                 [] OTHER -> vd("vModelDynamic"))
          [] OTHER -> AnyV
 
 VModelArgName(m) ==              \* the prop name a component receives the value under (TLA+ string)
